@@ -5,13 +5,19 @@ package main
 import (
 	"encoding/json"
 	"fmt"
+	"strings"
+	"sync"
 
 	gmsl "github.com/matrix-org/gomatrixserverlib"
+	"github.com/matrix-org/gomatrixserverlib/spec"
 )
 
 func init() {
 	register("c07", "replay Auth.tla scenarios: Allowed() verdict must equal the model's", func(a *args) error {
 		return replayAll(a, func(i int, raw json.RawMessage) Result { return authReplay(i, raw, int(a.seed), "c07") })
+	})
+	register("c07prov", "replay AuthProv.tla behaviours of the AuthEvents provider (New / AddEvent / Clear, then Allowed)", func(a *args) error {
+		return replayAll(a, func(i int, raw json.RawMessage) Result { return provReplay(i, raw, int(a.seed)) })
 	})
 	register("c08", "replay Auth.tla power-level scenarios: accepted => NoEsc", func(a *args) error {
 		return replayAll(a, func(i int, raw json.RawMessage) Result { return authReplay(i, raw, int(a.seed), "c08") })
@@ -39,18 +45,50 @@ func authReplay(i int, raw json.RawMessage, seed int, mode string) Result {
 	got, msg := runAllowed(c)
 	key := scenarioKey(&sc)
 	nt := fmt.Sprintf("%s|%s|%s|%v", sc.Fam, sc.Ver, key, sc.Want)
-	switch mode {
-	case "c07":
-		if got != sc.Want {
-			return Result{OK: false, NT: nt, Key: fmt.Sprintf("C07/%s/model=%v", key, sc.Want), Want: sc.Want, Got: got,
-				What:  fmt.Sprintf("Allowed: rules say allowed=%v, code says allowed=%v (%s) for %s in room version %s", sc.Want, got, msg, key, sc.Ver),
-				Extra: map[string]interface{}{"event": json.RawMessage(c.Event.JSON()), "auth": pdusJSON(c.All)}}
+	judge := func(c *concreteAuth, got bool, msg, k07, k08, note string) *Result {
+		switch mode {
+		case "c07":
+			if got != sc.Want {
+				return &Result{OK: false, NT: nt, Key: k07, Want: sc.Want, Got: got,
+					What:  fmt.Sprintf("Allowed: rules say allowed=%v, code says allowed=%v (%s) for %s in room version %s%s", sc.Want, got, msg, key, sc.Ver, note),
+					Extra: map[string]interface{}{"event": json.RawMessage(c.Event.JSON()), "auth": pdusJSON(c.All)}}
+			}
+		case "c08":
+			if sc.Ev.Type == "pl" && got && !sc.NoEsc {
+				return &Result{OK: false, NT: nt, Key: k08, Want: "rejected (escalation)", Got: "accepted",
+					What:  fmt.Sprintf("power-levels event accepted although it escalates privilege: %s in room version %s%s", key, sc.Ver, note),
+					Extra: map[string]interface{}{"event": json.RawMessage(c.Event.JSON()), "auth": pdusJSON(c.All)}}
+			}
 		}
-	case "c08":
-		if sc.Ev.Type == "pl" && got && !sc.NoEsc {
-			return Result{OK: false, NT: nt, Key: fmt.Sprintf("C08/%s", key), Want: "rejected (escalation)", Got: "accepted",
-				What:  fmt.Sprintf("power-levels event accepted although it escalates privilege: %s in room version %s", key, sc.Ver),
-				Extra: map[string]interface{}{"event": json.RawMessage(c.Event.JSON()), "auth": pdusJSON(c.All)}}
+		return nil
+	}
+	if r := judge(c, got, msg, fmt.Sprintf("C07/%s/model=%v", key, sc.Want), "C08/"+key, ""); r != nil {
+		return *r
+	}
+	if sc.hasPre() {
+		// the same scenario on objects of its own, with the caller's accessor-and-edit step: neither the verdict nor
+		// what it implies may differ.  (The plain run above stands for the check before the edit of order "cec" too:
+		// there it is repeated on the very objects that are edited afterwards.)
+		nt += "|" + sc.Pre.Route + "|" + sc.Pre.Edit + "|" + sc.Pre.Order
+		c2, err := concretise(&sc, variant)
+		if err != nil {
+			panic(fmt.Sprintf("concretise: %v", err))
+		}
+		// canonical key of such a failure: the route and the edit (the scenario's own key does not matter to it)
+		ak := fmt.Sprintf("accessor-edit/route=%s/edit=%s", sc.Pre.Route, sc.Pre.Edit)
+		k07, k08 := fmt.Sprintf("C07/%s/model=%v", ak, sc.Want), "C08/"+ak
+		if sc.Pre.Order == "cec" {
+			got0, msg0 := runAllowed(c2)
+			if r := judge(c2, got0, msg0, k07+"/before", k08+"/before", " [first check, before the caller's edit]"); r != nil {
+				return *r
+			}
+		}
+		if did := callerEdit(&sc, c2); did != "" {
+			got2, msg2 := runAllowed(c2)
+			if r := judge(c2, got2, msg2, k07, k08, " - after "+did+"; without that step the verdict is the specification's"); r != nil {
+				r.NT = nt
+				return *r
+			}
 		}
 	}
 	return Result{OK: true, NT: nt}
@@ -62,4 +100,223 @@ func pdusJSON(ps []gmsl.PDU) []json.RawMessage {
 		out = append(out, json.RawMessage(p.JSON()))
 	}
 	return out
+}
+
+// ---------------------------------------------------------------------------------------------------------------
+// C07 - the provider state machine (spec/AuthProv.tla): New(list) / AddEvent / Clear, then Allowed.
+// ---------------------------------------------------------------------------------------------------------------
+
+type provSnap struct {
+	H     []string `json:"h"` // create, pl, alice, bob: the code of the event held or "none"
+	Valid bool     `json:"valid"`
+}
+
+type provRecord struct {
+	Ver  string          `json:"ver"`
+	List []string        `json:"list"`
+	Ops  []string        `json:"ops"`
+	Hist []provSnap      `json:"hist"`
+	Want map[string]bool `json:"want"`
+	Fam  string          `json:"fam"`
+}
+
+// provEvents are the concrete events of the entries of AuthProv.tla for one room version; swap exchanges the concrete
+// rooms that play A and B.
+type provEvents struct {
+	byCode map[string]gmsl.PDU
+	msg    map[string]gmsl.PDU // judged message of alice in room "A" / "B"
+}
+
+var provCache sync.Map // ver/swap -> *provEvents
+
+func provEventsOf(ver string, swap bool) *provEvents {
+	key := fmt.Sprintf("%s/%v", ver, swap)
+	if v, ok := provCache.Load(key); ok {
+		return v.(*provEvents)
+	}
+	ids := newAuthIDs(ver, 0)
+	rooms := map[string][2]string{"A": {ids.room, ids.createID}, "B": {ids.otherRoom, ids.otherCreate}}
+	if swap {
+		rooms["A"], rooms["B"] = rooms["B"], rooms["A"]
+	}
+	pe := &provEvents{byCode: map[string]gmsl.PDU{}, msg: map[string]gmsl.PDU{}}
+	depth := int64(1)
+	for _, r := range []string{"A", "B"} {
+		room, createID := rooms[r][0], rooms[r][1]
+		cc := map[string]interface{}{"room_version": ver}
+		if !(ver == "11" || isDomainless(ver)) {
+			cc["creator"] = userIDs["creator"]
+		}
+		ce := eventSpec{Ver: ver, ID: createID, RoomID: room, Type: "m.room.create", StateKey: strp(""), Sender: userIDs["creator"], Content: cc, Depth: 1, TS: 1}
+		if isDomainless(ver) {
+			ce.RoomID = ""
+		}
+		pe.byCode["c"+r] = ce.mustBuild()
+		authBase := []string{createID}
+		if isDomainless(ver) {
+			authBase = nil
+		}
+		st := func(tag, typ, skey, sender string, content interface{}) gmsl.PDU {
+			depth++
+			es := eventSpec{Ver: ver, ID: ids.id(tag + r), RoomID: room, Type: typ, StateKey: strp(skey), Sender: sender, Content: content,
+				Prev: []string{createID}, Auth: authBase, Depth: depth, TS: depth}
+			return es.mustBuild()
+		}
+		pe.byCode["p"+r] = st("provpl", "m.room.power_levels", "", userIDs["creator"], map[string]interface{}{"events_default": 25})
+		pe.byCode["a"+r+"j"] = st("provaj", "m.room.member", userIDs["alice"], userIDs["alice"], map[string]interface{}{"membership": "join"})
+		pe.byCode["a"+r+"l"] = st("proval", "m.room.member", userIDs["alice"], userIDs["alice"], map[string]interface{}{"membership": "leave"})
+		pe.byCode["b"+r+"j"] = st("provbj", "m.room.member", userIDs["bob"], userIDs["bob"], map[string]interface{}{"membership": "join"})
+		me := eventSpec{Ver: ver, ID: ids.id("provmsg" + r), RoomID: room, Type: "m.room.message", Sender: userIDs["alice"], Content: map[string]interface{}{"body": "x"},
+			Prev: []string{ids.id("someprev")}, Auth: authBase, Depth: 30, TS: 30}
+		pe.msg[r] = me.mustBuild()
+	}
+	for _, p := range pe.byCode { // fill the lazily computed parts before the events are shared between goroutines
+		_, _ = p.EventID(), p.RoomID()
+	}
+	for _, p := range pe.msg {
+		_, _ = p.EventID(), p.RoomID()
+	}
+	v, _ := provCache.LoadOrStore(key, pe)
+	return v.(*provEvents)
+}
+
+var provSlots = []string{"create", "pl", "alice", "bob"}
+
+func provReplay(i int, raw json.RawMessage, seed int) Result {
+	var rec provRecord
+	if err := json.Unmarshal(raw, &rec); err != nil {
+		panic(err)
+	}
+	variant := seed + i
+	pe := provEventsOf(rec.Ver, variant%2 != 0)
+	nt := fmt.Sprintf("provider|%s|%s|%s|%v%v", rec.Ver, strings.Join(rec.List, ","), strings.Join(rec.Ops, ","), rec.Want["A"], rec.Want["B"])
+	extra := func() map[string]interface{} {
+		m := map[string]interface{}{"rooms_swapped": variant%2 != 0}
+		ev := map[string]json.RawMessage{}
+		for _, c := range append(append([]string{}, rec.List...), rec.Ops...) {
+			if p, ok := pe.byCode[c]; ok {
+				ev[c] = json.RawMessage(p.JSON())
+			}
+		}
+		m["events"] = ev
+		return m
+	}
+	fail := func(key, what string, want, got interface{}) Result {
+		return Result{OK: false, NT: nt, Key: key, Want: want, Got: got, Extra: extra(),
+			What: fmt.Sprintf("%s [NewAuthEvents(%v), then %v; room version %s]", what, rec.List, rec.Ops, rec.Ver)}
+	}
+	var listEvents []gmsl.PDU
+	for _, c := range rec.List {
+		listEvents = append(listEvents, pe.byCode[c])
+	}
+	prov, err := gmsl.NewAuthEvents(listEvents)
+	if err != nil {
+		panic(err)
+	}
+	// what was given so far since the last Clear, to name how a room got lost or stuck
+	type given struct {
+		code string
+		how  string
+	}
+	var since []given
+	for _, c := range rec.List {
+		since = append(since, given{c, "list"})
+	}
+	cleared := false
+	served := func(slot string) gmsl.PDU {
+		var p gmsl.PDU
+		switch slot {
+		case "create":
+			p, _ = prov.Create()
+		case "pl":
+			p, _ = prov.PowerLevels()
+		case "alice":
+			p, _ = prov.Member(spec.SenderID(userIDs["alice"]))
+		case "bob":
+			p, _ = prov.Member(spec.SenderID(userIDs["bob"]))
+		}
+		return p
+	}
+	check := func(step int) *Result {
+		snap := rec.Hist[step]
+		for k, slot := range provSlots {
+			want := snap.H[k]
+			p := served(slot)
+			got := "none"
+			if p != nil {
+				got = "?"
+				for c, q := range pe.byCode {
+					if q == p {
+						got = c
+					}
+				}
+			}
+			if got != want {
+				r := fail(fmt.Sprintf("C07/provider/serves-wrong-event/slot=%s", slot),
+					fmt.Sprintf("after step %d the provider serves %s for slot %s, the last event given for it is %s", step, got, slot, want), want, got)
+				return &r
+			}
+		}
+		if got := prov.Valid(); got != snap.Valid {
+			if snap.Valid {
+				stale := "replaced"
+				if cleared {
+					stale = "cleared"
+				}
+				r := fail("C07/provider/one-room-held-but-invalid/stale="+stale,
+					fmt.Sprintf("after step %d every event the provider holds %v is of one room, yet Valid() is false (Allowed refuses everything): "+
+						"an event that is no longer held (%s) still counts", step, snap.H, stale), true, false)
+				return &r
+			}
+			// which replacement lost the room
+			via := "add"
+			seen := map[byte]string{}
+			for _, g := range since {
+				if _, ok := seen[g.code[0]]; ok {
+					via = g.how
+				}
+				seen[g.code[0]] = g.how
+			}
+			r := fail("C07/provider/two-rooms-held-but-valid/replaced-via="+via,
+				fmt.Sprintf("after step %d the provider holds events of two rooms %v, yet Valid() is true", step, snap.H), false, true)
+			return &r
+		}
+		return nil
+	}
+	if r := check(0); r != nil {
+		return *r
+	}
+	for k, c := range rec.Ops {
+		if c == "clr" {
+			prov.Clear()
+			since = nil
+			cleared = true
+		} else {
+			if err := prov.AddEvent(pe.byCode[c]); err != nil {
+				panic(err)
+			}
+			since = append(since, given{c, "add"})
+		}
+		if r := check(k + 1); r != nil {
+			return *r
+		}
+	}
+	last := rec.Hist[len(rec.Hist)-1]
+	for _, r := range []string{"A", "B"} {
+		err := gmsl.Allowed(pe.msg[r], prov, identityQuerier)
+		if got := err == nil; got != rec.Want[r] {
+			msg := ""
+			if err != nil {
+				msg = err.Error()
+			}
+			rooms := "one-room"
+			if !last.Valid {
+				rooms = "two-rooms"
+			}
+			return fail(fmt.Sprintf("C07/provider/allowed/held=%s/model=%v", rooms, rec.Want[r]),
+				fmt.Sprintf("Allowed(message of alice in room %s) with a provider holding %v: rules say allowed=%v, code says allowed=%v (%s)", r, last.H, rec.Want[r], got, msg),
+				rec.Want[r], got)
+		}
+	}
+	return Result{OK: true, NT: nt}
 }
